@@ -40,7 +40,7 @@ FLOORS = {
 CASE_TIMEOUT = {"quick": 90, "thorough": 180}
 SIZES = {"quick": 700, "thorough": 10000}
 KINDS = ("relabel", "relabel", "redundant", "repack", "repack", "same", "unrelated", "near", "near", "onesided",
-         "onesided", "onesided", "onesided", "symne", "symne", "finlang", "finlang", "finlang", "finlang")
+         "onesided", "onesided", "onesided", "symne", "symne", "finlang", "finlang", "finlang", "finlang", "rotated")
 
 
 # experiment knob (never set by the registered commands): restrict the generated pair kinds
@@ -222,6 +222,24 @@ def gen_cases(tier, seed):
                 p2 = dict(c12.atom_pack(rng), sym=p2["sym"])
             if rng.random() < 0.5:
                 c1, p1, c2, p2 = c2, p2, c1, p1
+        elif kind == "rotated":
+            # pairs that differ only in the constructors: after the letter x only x may follow,
+            # so C(x^k) = {x^k} + C(x^(k+1)) and C(x^(k+1)) = {x} x C(x^k) - the same two-cycle
+            # entered at the union on one side and at the product on the other
+            al = rng.choice(("a", "ab", "ab", "abc"))  # (one letter: the union has exactly two children)
+            x = rng.choice(al)
+            pats = {x + y for y in al if y != x}
+            if len(al) > 1 and rng.random() < 0.4:
+                pats.add("".join(rng.choice(al) for _ in range(rng.choice((2, 3)))))
+            kk = rng.choice((1, 1, 2))
+            c1 = {"prefix": x * (kk + 1), "patterns": sorted(pats), "alphabet": al, "just_prefix": False,
+                  "stats": [], "bytes": False, "proper": False, "right": None}
+            c2 = dict(c1, prefix=x * kk)
+            if rw.is_empty(c1) or rw.is_empty(c2):
+                continue
+            p1 = dict(p1, sym=False, inferral=[], factory=None, plus=False, twice=[], layout="initial", dead=False,
+                      split=rng.random() < 0.5)
+            p2 = dict(p1, split=False, order=rng.choice((0, 1, 2)))
         elif kind == "relabel":
             c2, p2 = c12.relabel(c1, rng), dict(p1)
         elif kind == "redundant":
